@@ -180,6 +180,20 @@ Theorem C08_ops_http_options_keys_distinct : forall rules,
 Proof. exact ops_http_options_keys_distinct. Qed.
 Print Assumptions C08_ops_http_options_keys_distinct.
 
+(* path_prefix of the operations transport (rest.py and rest_asyncio.py): the last segment of the package *)
+Theorem C08_ops_path_prefix_spec : forall p v,
+  contains dot v = false ->
+  ops_path_prefix (p ++ "." ++ v) = v /\ ops_path_prefix v = v /\
+  forall name, default_poll_path (p ++ "." ++ v) name = "/" ++ v ++ "/" ++ name.
+Proof. exact ops_path_prefix_spec. Qed.
+Print Assumptions C08_ops_path_prefix_spec.
+
+Example C08_path_prefix_example :
+  ops_path_prefix "acme.jobs.v2" = "v2" /\ ops_path_prefix "google.cloud.batchy.v1beta1" = "v1beta1" /\ ops_path_prefix "simple" = "simple" /\
+  default_poll_path "acme.jobs.v2" "projects/p/operations/op-1" = "/v2/projects/p/operations/op-1".
+Proof. exact ex_path_prefix. Qed.
+Print Assumptions C08_path_prefix_example.
+
 Example C08_ops_http_options_example :
   let get := mkHR "google.longrunning.Operations.GetOperation"
                [Some (mkB "get" "/v1/{name=projects/*/operations/*}" ""); Some (mkB "get" "/v1/{name=organizations/*/operations/*}" "");
